@@ -47,6 +47,8 @@ def run(an: Analysis, rep):
     rep.run(r077, an, rep, enc)
     from .common import SharedRules
     from . import c08
+    from .common import rebuild_rule
+    rep.run(rebuild_rule, an, rep, "R07.8", ["from_json"], "a data class built key by key from a JSON object reads every field of the class (an omitted one silently takes its default)")
     rep.run(c08.r083, an, SharedRules(rep, "R07.S", "from_json_data stores tuples where the data classes declare tuples (shared with C08's R08.3): a list left in place makes the result unequal to x and unhashable"))
     rep.stats.update(an.stats([an.interp("to_json")[0], an.interp("from_json")[0]]))
 
